@@ -154,7 +154,11 @@ pub fn run_case(doc: &[u8], path: &[PointerNode], wellformed_only: bool) -> Stri
         ep!("schema", {
             let schema: Value = sonic_rs::from_str(r#"{"a":null,"b":{"c":1},"x":[]}"#).unwrap();
             match sonic_rs::get_by_schema(doc, schema) {
-                Ok(v) => format!("S:{}", hex(sonic_rs::to_string(&v).unwrap().as_bytes())),
+                // (members in key order: the schema object is a hash map with a per-process seed)
+                Ok(v) => {
+                    let j: serde_json::Value = serde_json::from_str(&sonic_rs::to_string(&v).unwrap()).unwrap_or(serde_json::Value::Null);
+                    format!("S:{}", hex(serde_json::to_string(&j).unwrap().as_bytes()))
+                }
                 Err(e) => cat(&e),
             }
         });
